@@ -25,6 +25,7 @@ var bytesFuncs = []bfnSpec{
 	{"Message", "Length"}, {"Message", "Data"}, {"Message", "Checksum"}, {"Message", "IsError"}, {"Message", "ErrorCode"},
 	{"Message", "Validate"}, {"MTData2", "PacketAt"}, {"", "ScanMessages"}, {"", "NewMessage"},
 	{"MTData2Packet", "SetLength"}, {"MTData2Packet", "SetIdentifier"}, {"", "NewMTData2Package"},
+	{"MTData2Packet", "Identifier"},
 }
 
 func bfnName(recv, name string) string {
@@ -592,7 +593,7 @@ func (e *benv) block(stmts []ast.Stmt, ret func([]ast.Expr) string, cont func() 
 		if len(vs.Values) == 1 {
 			return bindv(vs.Names[0].Name, e.expr(vs.Values[0]))
 		}
-		zero := map[string]string{"int": "0", "bool": "false", "bytes": "[]", "error": "None"}[bkind(e.x.info.Defs[vs.Names[0]].Type())]
+		zero := map[string]string{"int": "0", "bool": "false", "bytes": "[]", "error": "None", "dataid": "(0, 0, 0)"}[bkind(e.x.info.Defs[vs.Names[0]].Type())]
 		if zero == "" {
 			return e.bad(s, "unsupported variable type")
 		}
@@ -601,6 +602,17 @@ func (e *benv) block(stmts []ast.Stmt, ret func([]ast.Expr) string, cont func() 
 		call, ok := s.X.(*ast.CallExpr)
 		if !ok {
 			return e.bad(s, "unsupported expression statement")
+		}
+		// id.SetUint16(x) on a local DataIdentifier value
+		if sel, ok := call.Fun.(*ast.SelectorExpr); ok && sel.Sel.Name == "SetUint16" && len(call.Args) == 1 {
+			if rid, ok := sel.X.(*ast.Ident); ok && bkind(e.x.info.TypeOf(sel.X)) == "dataid" {
+				if cur, okv := e.vars[rid.Name]; okv {
+					a := e.expr(call.Args[0])
+					return bindv(rid.Name, e.combine([]bex{a}, func(s []string) string {
+						return "(let '(dt_, cs_, pr_) := " + cur + " in f_DataIdentifier_SetUint16 dt_ cs_ pr_ " + s[0] + ")"
+					}))
+				}
+			}
 		}
 		// x.M(args) for a local byte slice x and a translated method that writes through its receiver
 		if sel, ok := call.Fun.(*ast.SelectorExpr); ok {
